@@ -55,6 +55,9 @@ def instances(tier, seed):
         out.append(dict(name="byteswapped Bytes(%d)" % n, params=dict(kind="bswap", n=n)))
         out.append(dict(name="bitsswapped Bytes(%d)" % n, params=dict(kind="bitswap", n=n)))
     out.append(dict(name="byteswapped Struct", params=dict(kind="bswap-struct")))
+    for outer in ("BitsSwapped", "ByteSwapped"):
+        for nb in (1, 2, 3):
+            out.append(dict(name="%s over a %d-byte bit region" % (outer, nb), params=dict(kind="bswap-bitregion", outer=outer, nb=nb)))
     # swapped numeric fields in every byte order, the host's native order included
     for nm in ("Int16ub", "Int16ul", "Int16un", "Int16sn", "Int24ub", "Int24sl", "Int24un", "Int32un", "Int32sb", "Int64sn", "Int64ul", "Float32n", "Float32b", "Float64n", "Float16n",
                "BytesInteger(3, swapped=True)", "BytesInteger(5, signed=True)"):
@@ -286,6 +289,17 @@ def _swap(ctx, C, p):
         exp = mkbytes([rev8(b) for b in data])
         ctx.check("streaming path: parse presents bit-reversed bytes", ctx.eq(d.parse(data), exp))
         ctx.check("streaming path: build emits bit-reversed bytes", ctx.eq(d.build(data), exp))
+        return "ok"
+    if kind == "bswap-bitregion":
+        # composition: the outer swap transforms the bytes first, the bit region then reads them MSB-first
+        nb, outer = p["nb"], p["outer"]
+        inner_src = "Bitwise(Struct('a'/BitsInteger(3), 'b'/BitsInteger(%d)))" % (8 * nb - 3)
+        d, inner = mk(C, "%s(%s)" % (outer, inner_src)), mk(C, inner_src)
+        data = ctx.bytes("data", nb)
+        tr = mkbytes(list(data)[::-1]) if outer == "ByteSwapped" else mkbytes([rev8(b) for b in data])
+        v, w = d.parse(data), inner.parse(tr)
+        ctx.check("the bit region sees the swapped bytes (byte order kept by BitsSwapped, bit order kept by ByteSwapped)", api.and_terms([ctx.eq(v.a, w.a), ctx.eq(v.b, w.b)]))
+        ctx.check("build inverts parse", ctx.eq(d.build(v), data))
         return "ok"
     if kind in ("bswap-field", "bitswap-field"):
         # the swapped field reads the transformed bytes: parse(x) of the wrapper == parse(T(x)) of the field, build == T(build)
